@@ -226,6 +226,7 @@ impl C09 {
         // test or inside the interrupt entry that follows it (also on the `int:` word itself)
         let press2_at: Option<i64> = if key && rng.bool() { Some(rng.below(30) as i64) } else { None };
         let mut press2_done = false;
+        let (mut continued, mut after_continue) = (false, false);
         loop {
             if let (Some(off), Some(b0)) = (reset_at, first_b_edge) {
                 if !reset_done && ls.edge >= b0 + off && ls.ended.is_none() {
@@ -263,6 +264,17 @@ impl C09 {
             if !s.mac2() && (s.mac1() || s.mac0()) {
                 ctx.cov.set("conditional-word-x-outcome", mix(control_word(&ls.sut) as u64, s.am1() as u64));
             }
+            if after_continue {
+                let cur = control_word(&ls.sut);
+                if !tables().first[0x01].contains(&cur) {
+                    return Err(label(v("left-routine", format!("edge={} after STOP and CONTINUE the sequencer runs control word {:07X}, which is not part of the routine of the fetched opcode 0x01 (IR=0x{:02X})", ls.edge, cur, ls.sut.word().bits()))));
+                }
+                // the routine ends with the fetch word of page 0 or, with a request pending, its `int:` word
+                if ev != Event::None || cur == w(0x06) || cur == w(0x07) {
+                    after_continue = false;
+                    ctx.cov.probe("stop-routine-completed-after-continue");
+                }
+            }
             match ev {
                 Event::Boundary => {
                     boundaries += 1;
@@ -282,6 +294,17 @@ impl C09 {
                 }
                 Event::Halt => {
                     ctx.cov.probe("halted");
+                    if ls.sut.state() == State::Stopped && !continued && !mon.second && !mon.entry {
+                        // a fetched STOP is an instruction like any other: after CONTINUE the sequencer
+                        // must run the routine of the fetched 0x01 (one NOP word and the fetch), not
+                        // whatever a stale instruction register selects (a 0x01 loaded as the second byte of
+                        // a two-byte instruction also stops the machine: that is not a fetched STOP)
+                        continued = true;
+                        after_continue = true;
+                        ls.stim(&Stim::Continue).map_err(label)?;
+                        ctx.cov.fault("CONT");
+                        continue;
+                    }
                     break;
                 }
                 Event::Hung => {
@@ -377,7 +400,7 @@ impl Check for C09 {
         out
     }
     fn rule(&self) -> String {
-        "Enumerated: every first opcode byte (256) and, for 0xF0-0xFF, every second byte (256 each) = 4336 opcode forms; per form 16 flag nibbles x {no key press, key flip-flop set with the enable bit on} x K seeded data states (registers, RAM, operand placement in RAM vs I/O, instruction address), each run from an instruction boundary through three boundaries. distinct = distinct (instruction-register byte, control word, FR nibble, flip-flop) control states visited.".into()
+        "Enumerated: every first opcode byte (256) and, for 0xF0-0xFF, every second byte (256 each) = 4336 opcode forms; per form 16 flag nibbles x {no key press, key flip-flop set with the enable bit on} x K seeded data states (registers, RAM, operand placement in RAM vs I/O, instruction address), each run from an instruction boundary through three boundaries; a regular stop on a fetched STOP is resumed with CONTINUE once (the words up to the next fetch / int word must be the routine of opcode 0x01) and the run goes on. distinct = distinct (instruction-register byte, control word, FR nibble, flip-flop) control states visited.".into()
     }
     fn assumptions(&self) -> Vec<String> {
         vec![
@@ -390,7 +413,7 @@ impl Check for C09 {
         json!({"control store, next-address logic, IR load/reset, Machine": "real", "control-word monitor, R-COST bound, scheduler, PRNG": "harness"})
     }
     fn must_fire(&self, _tier: Tier) -> Vec<String> {
-        vec!["undefined-opcode-hangs".into(), "halted".into(), "K-INT".into(), "RST-CPU".into()]
+        vec!["undefined-opcode-hangs".into(), "halted".into(), "K-INT".into(), "RST-CPU".into(), "CONT".into(), "stop-routine-completed-after-continue".into()]
     }
     fn exhaustive_dims(&self, _tier: Tier) -> Vec<String> {
         vec!["first opcode byte 0..255".into(), "second opcode byte 0..255 for each first byte 0xF0-0xFF".into(), "FR low nibble 0..15 x key flip-flop".into()]
